@@ -133,7 +133,7 @@ def expand_helpers(model: Model, cls: ClassInfo, func: ast.FunctionDef, depth: i
         if r is None or r[0].file != cls.file:
             return None
         h = r[1]
-        if h is func or len(h.body) > 25 or h.args.vararg or h.args.kwarg:
+        if h is func or h.name == func.name or len(h.body) > 25 or h.args.vararg or h.args.kwarg:
             return None
         if any(d for d in h.decorator_list):
             return None
